@@ -39,7 +39,9 @@ def h_init_merge(ctx):
     present = [s for s in USER_SECTIONS if ctx.flag("has_" + s.replace("-", "_"))]
     spell = {s: ctx.pick("spelling_" + s.replace("-", "_"), ("hyphen", "underscore")) if "-" in s else "hyphen" for s in present}
     preset = ctx.pick("preset", ("strict", "standard", "lenient"))
-    extra = ctx.pick("extra_user_content", ("none", "leading-comment", "extra-top-level-key", "global-settings-marker"))
+    extra = ctx.pick("extra_user_content", ("none", "leading-comment", "extra-top-level-key", "global-settings-marker",
+                                           "document-start-marker", "document-end-marker", "flow-style-section", "root-flow-mapping",
+                                           "trailing-keep-scalar", "crlf-line-endings", "no-final-newline", "tab-free-deep-indent"))
     d = Path(tempfile.mkdtemp(prefix="c20-"))
     try:
         text = ""
@@ -52,15 +54,39 @@ def h_init_merge(ctx):
             text += "my_custom_key:\n  answer: 42\n"
         if extra == "global-settings-marker":
             text += "# ============================================================================\n# GLOBAL SETTINGS\n# ============================================================================\noutput_format: text\n"
+        if extra == "document-start-marker":
+            text = "---\n" + text
+        if extra == "document-end-marker":
+            text += "my_custom_key: 1\n...\n"
+        if extra == "flow-style-section":
+            text += "performance: {enabled: false}\nlbyl: {enabled: true, detect_dict_key: false}\n"
+        if extra == "root-flow-mapping":
+            text = "{" + ", ".join("%s: {%s: %s}" % (s if spell[s] == "hyphen" else s.replace("-", "_"), USER_SECTIONS[s][1][0],
+                                                     str(USER_SECTIONS[s][1][1]).lower() if isinstance(USER_SECTIONS[s][1][1], bool) else USER_SECTIONS[s][1][1])
+                                   for s in present) + "}\n"
+        if extra == "trailing-keep-scalar":
+            text += "my_banner: |+\n  two blank lines follow\n\n\n"
+        if extra == "no-final-newline":
+            text = (text + "my_custom_key: 1").rstrip("\n")
+        if extra == "tab-free-deep-indent":
+            text += "my_tree:\n        deep:\n                deeper: 1\n"
+        if extra == "crlf-line-endings":
+            text = text.replace("\n", "\r\n")
         if not text:
             text = "# empty but existing configuration\n"
         f = d / ".thailint.yaml"
-        f.write_text(text)
+        f.write_bytes(text.encode())
+        before_doc = yaml.safe_load(text) or {}
         r1 = _invoke(["init-config", "--non-interactive", "--preset", preset], d)
-        after1 = f.read_text()
+        after1 = f.read_bytes().decode()
         r2 = _invoke(["init-config", "--non-interactive", "--preset", preset], d)
-        after2 = f.read_text()
-        ctx.require("init-config-succeeds", r1.exit_code == 0 and r2.exit_code == 0, out=(r1.output + r2.output)[-300:])
+        after2 = f.read_bytes().decode()
+        # layouts a textual merge cannot extend: refusing (non-zero exit, file untouched) is as good as merging
+        refusable = extra in ("document-end-marker", "root-flow-mapping", "trailing-keep-scalar")
+        refused1 = r1.exit_code != 0 and after1.encode() == text.encode() if refusable else False
+        ctx.note("refused", refused1)
+        ctx.require("init-config-succeeds", (r1.exit_code == 0 or refused1) and (r2.exit_code == 0 or (refused1 and after2 == after1)),
+                    codes=[r1.exit_code, r2.exit_code], out=(r1.output + r2.output)[-300:])
         try:
             doc = yaml.safe_load(after1) or {}
             ok_yaml = isinstance(doc, dict)
@@ -70,9 +96,12 @@ def h_init_merge(ctx):
         if not ok_yaml:
             return
         ctx.require("second-run-changes-nothing", after1 == after2)
+        # every top-level key the user had keeps exactly its parsed value (extra keys and exotic scalars included)
+        changed = sorted(str(k) for k in before_doc if doc.get(k) != before_doc[k]) if isinstance(before_doc, dict) else []
+        ctx.require("every-pre-existing-value-unchanged", not changed, changed=changed, extra=extra)
         # never a deletion: every line the user wrote is still there, in order
-        it = iter(after1.split("\n"))
-        kept = all(any(l == m for m in it) for l in text.rstrip("\n").split("\n"))
+        it = iter(after1.replace("\r\n", "\n").split("\n"))
+        kept = all(any(l == m for m in it) for l in text.replace("\r\n", "\n").rstrip("\n").split("\n"))
         ctx.require("existing-content-preserved", kept)
         effective = parse_config_file(f)       # what the linters get (keys normalised)
         for s in present:
@@ -85,7 +114,12 @@ def h_init_merge(ctx):
                         section=s, spelling=spell[s], key=key, want=val, got=(sec or {}).get(key) if isinstance(sec, dict) else sec)
             names = [k for k in doc if k.replace("-", "_") == norm]
             ctx.require("section-not-duplicated", len(names) == 1, section=s, names=names)
-        ctx.cover("merged" if present else "empty-existing")
+        if not refused1:
+            from src.cli import config_merge
+            have = {str(k).replace("-", "_") for k in doc}
+            absent = [x for x in config_merge.LINTER_SECTIONS if x.replace("-", "_") not in have]
+            ctx.require("missing-sections-added", not absent, absent=absent)
+        ctx.cover("refused" if refused1 else "merged" if present else "empty-existing")
     finally:
         shutil.rmtree(d, True)
 
